@@ -280,3 +280,65 @@ def rule_padding_invariance(ctx, rep):
                 elif c[key][cb] != v:
                     diffs.append((key, f"B{b}", v, c[key][cb]))
         rep.check(not diffs, rule, name, where, diffs[:4], [], why="verdicts depend on stack-neutral padding", sample={"program": name, "keys": sorted(a)})
+
+
+MOVE_PROGRAMS = {
+    # main + two subroutines with different checks; the bodies of f and g are written in either order
+    "two subroutines after main": (
+        "#pragma version 6\nglobal GroupSize\nint 2\n==\nassert\ncallsub f\ntxn Amount\nbz skip\ncallsub g\nskip:\nint 1\nreturn\n",
+        "f:\ntxn RekeyTo\nglobal ZeroAddress\n==\nassert\nretsub\n",
+        "g:\ntxn Fee\nint 1000\n<=\nassert\ntxn GroupIndex\nint 0\n==\nassert\nretsub\n"),
+    "nested call, callee written before or after its caller": (
+        "#pragma version 6\ncallsub outer\nint 1\nreturn\n",
+        "outer:\ntxn TypeEnum\nint pay\n==\nassert\ncallsub inner\nretsub\n",
+        "inner:\ntxn CloseRemainderTo\nglobal ZeroAddress\n==\nassert\nretsub\n"),
+    "subroutine with a loop and one that exits the program": (
+        "#pragma version 6\ntxn NumAppArgs\nbz plain\ncallsub lp\nplain:\ncallsub fin\nint 0\nreturn\n",
+        "lp:\nint 0\nagain:\nint 1\n+\ndup\nint 3\n<\nbnz again\npop\nglobal GroupSize\nint 3\n<\nassert\nretsub\n",
+        "fin:\ntxn RekeyTo\nglobal ZeroAddress\n==\nbz bad\nint 1\nreturn\nbad:\nerr\n"),
+}
+
+
+def rule_move_subroutines(ctx, rep):
+    rule = "T-REWRITE(move)"
+    rep.rule(rule, "writing whole subroutine bodies in a different order leaves the graph (blocks by their text, successors, subroutines, callers, "
+                   "return points) and the per-block contexts of all four analyses unchanged up to the induced renumbering of blocks and lines")
+    from .fixpoint import analyse
+    where = ctx.path(PT)
+    for name, (main, f, g) in MOVE_PROGRAMS.items():
+        a_src, b_src = main + f + g, main + g + f
+        try:
+            ga, _ = tealer_cfg(ctx, a_src)
+            gb, _ = tealer_cfg(ctx, b_src)
+            ca, la = analyse(ctx, a_src)
+            cb, lb = analyse(ctx, b_src)
+        except PyRaise as e:
+            rep.violation(rule, f"{name}: runs", where, f"RAISES {e.exc} {e.where}", "two analyses")
+            continue
+        la_txt, lb_txt = a_src.split("\n"), b_src.split("\n")
+
+        def key_of(lines_txt, block_lines):
+            # a block is identified by the text of its instructions (labels make them unique in these programs)
+            return tuple(lines_txt[l - 1] for l in block_lines)
+
+        def graph(g, lines_txt):
+            k = {b: key_of(lines_txt, v["lines"]) for b, v in g["blocks"].items()}
+            blocks = {k[b]: {"next": [k[x] for x in v["next"]], "prev": sorted(k[x] for x in v["prev"])} for b, v in g["blocks"].items()}
+            subs = sorted((k[v["entry"]], tuple(sorted(k[x] for x in v["blocks"])), tuple(sorted(k[x] for x in v["exits"])), tuple(sorted(k[x] for x in v["callers"])),
+                           tuple(sorted(k[x] for x in v["return_points"]))) for v in g["subs"].values())
+            return blocks, subs
+        A, B = graph(ga, la_txt), graph(gb, lb_txt)
+        rep.check(len(A[0]) == len(ga["blocks"]) and A == B, rule, f"{name}: graph", where, sorted(set(map(str, B[0].items())) ^ set(map(str, A[0].items())))[:4], [],
+                  why="the graph depends on the order in which subroutine bodies are written", sample={"program": name})
+        ka = {b: key_of(la_txt, ls) for b, ls in la.items()}
+        kb = {key_of(lb_txt, ls): b for b, ls in lb.items()}
+        diffs = []
+        for key in ca:
+            for b, v in ca[key].items():
+                ob = kb.get(ka[b])
+                if ob is None:
+                    diffs.append((key, f"B{b}", "no corresponding block"))
+                elif cb[key][ob] != v:
+                    diffs.append((key, f"B{b} / B{ob}", v, cb[key][ob]))
+        rep.check(not diffs, rule, f"{name}: contexts", ctx.path("tealer.analyses.dataflow.transaction_context.generic"), diffs[:4], [],
+                  why="block contexts depend on the order in which subroutine bodies are written", sample={"program": name, "keys": sorted(ca)})
